@@ -333,6 +333,10 @@ def smoothed_scale_mean_input(ctx: Ctx, calls):
             reads |= set(ctx.flow.eval(variant, obj, m, {}).reads)
         numeric = sorted(r for r in reads if "numeric_value" in r)
         data = sorted(r for r in reads if not r.startswith(("Dimension.", "Element.", "_OrderSpec.", "ORDER", "FIELD:")))[:4]
+        if not reads:
+            ctx.undecided("wiring.scale-mean-input", where + f" [{m.name}]", f"FLOW derives no read for the operand {u(arg)[:60]}", "the 2-D column proportions")
+            ctx.count("scale-mean smoother inputs")
+            continue
         if numeric:
             ctx.violated("wiring.scale-mean-input", where + f" [{m.name}]", f"the smoothed operand depends on {numeric}", "the 2-D column proportions (no numeric values involved)",
                          "the scale mean was taken BEFORE smoothing: the result is the moving average of the means, not the mean of the smoothed proportions")
